@@ -1046,8 +1046,11 @@ class Message(ABC):
                     assert meta.map_types
                     sk = _serialize_single(1, meta.map_types[0], k)
                     sv = _serialize_single(2, meta.map_types[1], v)
+                    # an entry whose key and value are both defaults is still an entry
                     stream.write(
-                        _serialize_single(meta.number, meta.proto_type, sk + sv)
+                        _serialize_single(
+                            meta.number, meta.proto_type, sk + sv, serialize_empty=True
+                        )
                     )
             else:
                 # If we have an empty string and we're including the default value for
@@ -1152,7 +1155,9 @@ class Message(ABC):
                     assert meta.map_types
                     sk = _serialize_single(1, meta.map_types[0], k)
                     sv = _serialize_single(2, meta.map_types[1], v)
-                    size += _len_single(meta.number, meta.proto_type, sk + sv)
+                    size += _len_single(
+                        meta.number, meta.proto_type, sk + sv, serialize_empty=True
+                    )
             else:
                 # If we have an empty string and we're including the default value for
                 # a oneof, make sure we serialize it. This ensures that the byte string
